@@ -12,7 +12,7 @@ use std::collections::BTreeMap;
 
 pub struct C17;
 
-const NFORMS: u64 = 27;
+const NFORMS: u64 = 28;
 
 struct Case {
     src: String,
@@ -60,11 +60,13 @@ fn build(idx: u64) -> Case {
         24 => ("".into(), "".into(), "".into(), "a::via()".into(), Some(pg), 22.0, "relative path b::g from inside a, after mod b"),
         // a module-level let inside a, then a top-level let that refers into a
         25 => ("".into(), "".into(), "let y = a::f()\n".into(), "y".into(), Some(pf), 11.0, "top-level let after a module that contains a let"),
-        _ => ("".into(), "".into(), "let y = a::b::g()\n".into(), "y".into(), Some(pb && pg), 22.0, "top-level let into the nested module, after a module-level let"),
+        26 => ("".into(), "".into(), "let y = a::b::g()\n".into(), "y".into(), Some(pb && pg), 22.0, "top-level let into the nested module, after a module-level let"),
+        // a top-level let with the same name as the module-level let inside a
+        _ => ("".into(), "".into(), "let k = a::f()\n".into(), "k".into(), Some(pf), 11.0, "top-level let named like a module-level let of the module it refers into"),
     };
     let in_a_after: String = match form {
         24 => "  pub fn via() {\n    b::g()\n  }\n".into(),
-        25 | 26 => "  let k = 1.0\n".into(),
+        25 | 26 | 27 => "  let k = 1.0\n".into(),
         _ => String::new(),
     };
     let _ = (&mut in_a, &mut in_b, &mut root);
@@ -77,17 +79,167 @@ fn build(idx: u64) -> Case {
     Case { src, admissible: adm, expected: exp, form: name }
 }
 
+// ---------------------------------------------------------------- same-name module chain
+// A chain of nested modules root > a > b > c.  The *same* member name `h` is defined at any subset of the four
+// levels (each definition returns its own constant), each with or without `pub`, the inner modules with or without
+// `pub`, members written before or after the nested module.  A probe function at one level refers to `h`
+// unqualified, through an absolute path (`a::h`, `a::b::h`, `a::b::c::h`) or through a path relative to its own
+// module (`b::h`, `b::c::h`, `c::h`).  The harness computes what the reference denotes:
+//   unqualified: the definition of the innermost enclosing level that has one (none: the name is unbound);
+//   path to level T: the definition at level T (none there: the path denotes nothing); it is admissible iff every
+//   module on the way and the member are `pub` or defined in a module that encloses the referrer.
+const LEVEL_VALUE: [f64; 4] = [1.0, 20.0, 300.0, 4000.0];
+const MODS: [&str; 4] = ["", "a", "b", "c"];
+/// reference forms: (probe level, target level or None for unqualified, relative?)
+fn chain_forms() -> Vec<(usize, Option<usize>, bool)> {
+    let mut v = vec![];
+    for l in 0..4 {
+        v.push((l, None, false));
+        for t in 1..4 {
+            v.push((l, Some(t), false));
+        }
+    }
+    // relative paths from a parent into its descendants
+    v.push((1, Some(2), true));
+    v.push((1, Some(3), true));
+    v.push((2, Some(3), true));
+    v
+}
+fn n_chain() -> u64 {
+    // defs(16) x pub h1,h2,h3 (8) x pub b,c (4) x order (2) x forms
+    16 * 8 * 4 * 2 * chain_forms().len() as u64
+}
+struct Chain {
+    src: String,
+    /// Some(v): the reference denotes the definition returning v; None: it denotes nothing
+    denotes: Option<f64>,
+    admissible: bool,
+    form: String,
+    tags: Vec<String>,
+}
+fn build_chain(mut k: u64) -> Chain {
+    let forms = chain_forms();
+    let (probe, target, relative) = forms[(k % forms.len() as u64) as usize];
+    k /= forms.len() as u64;
+    let members_first = k % 2 == 0;
+    k /= 2;
+    let pub_mod = [true, true, k & 1 != 0, k & 2 != 0];
+    k /= 4;
+    let pub_h = [true, k & 1 != 0, k & 2 != 0, k & 4 != 0];
+    k /= 8;
+    let defs = [k & 1 != 0, k & 2 != 0, k & 4 != 0, k & 8 != 0];
+    // the reference
+    let reference = match target {
+        None => "h()".to_string(),
+        Some(t) if relative => format!("{}::h()", MODS[probe + 1..=t].join("::")),
+        Some(t) => format!("{}::h()", MODS[1..=t].join("::")),
+    };
+    let (denotes, admissible) = match target {
+        None => ((0..=probe).rev().find(|&l| defs[l]).map(|l| LEVEL_VALUE[l]), true),
+        Some(t) => {
+            let vis = (1..=t).all(|j| pub_mod[j] || probe + 1 >= j) && (pub_h[t] || probe >= t);
+            (defs[t].then_some(LEVEL_VALUE[t]), vis)
+        }
+    };
+    // source: level i has (optionally) h, a pub probe p, and the nested module i+1
+    fn level(i: usize, defs: &[bool; 4], pub_h: &[bool; 4], pub_mod: &[bool; 4], members_first: bool, probe: usize, reference: &str) -> String {
+        let ind = "  ".repeat(i);
+        let mut members = String::new();
+        if defs[i] && i > 0 {
+            members.push_str(&format!("{ind}{}fn h() {{\n{ind}  {}\n{ind}}}\n", if pub_h[i] { "pub " } else { "" }, crate::lang::fmt_num(LEVEL_VALUE[i])));
+        }
+        // the probe comes last: a function can only refer to what is defined before it
+        let mut probe_fn = String::new();
+        if i > 0 {
+            let body = if i == probe { reference.to_string() } else if i < probe { format!("{}::p()", MODS[i + 1]) } else { "0.0".to_string() };
+            probe_fn.push_str(&format!("{ind}pub fn p() {{\n{ind}  {body}\n{ind}}}\n"));
+        }
+        let nested = if i < 3 { format!("{ind}{}mod {} {{\n{}{ind}}}\n", if pub_mod[i + 1] { "pub " } else { "" }, MODS[i + 1], level(i + 1, defs, pub_h, pub_mod, members_first, probe, reference)) } else { String::new() };
+        if members_first { format!("{members}{nested}{probe_fn}") } else { format!("{nested}{members}{probe_fn}") }
+    }
+    let root_h = if defs[0] { format!("fn h() {{\n  {}\n}}\n", crate::lang::fmt_num(LEVEL_VALUE[0])) } else { String::new() };
+    let dsp = format!("fn dsp() {{\n  {}\n}}\n", if probe == 0 { reference.clone() } else { "a::p()".to_string() });
+    let tree = level(0, &defs, &pub_h, &pub_mod, members_first, probe, &reference);
+    let src = if members_first { format!("{root_h}{tree}{dsp}") } else { format!("{tree}{root_h}{dsp}") };
+    let kind = match (target, relative) {
+        (None, _) => "unqualified",
+        (_, true) => "relative_path",
+        _ => "absolute_path",
+    };
+    let mut tags = vec!["chain".to_string(), format!("chain_{kind}"), format!("probe_level_{probe}"), format!("chain_denotes_{}", if denotes.is_some() { "a_definition" } else { "nothing" }), format!("chain_admissible_{admissible}")];
+    if let Some(t) = target {
+        tags.push(format!("target_level_{t}"));
+        if !admissible && (pub_h[t] || probe >= t) {
+            // the member itself is visible; only a module on the way is not `pub`
+            tags.push("private_module_public_member".into());
+        }
+        if t <= probe {
+            tags.push("path_into_an_enclosing_module".into());
+        }
+    }
+    if defs.iter().filter(|d| **d).count() >= 2 {
+        tags.push("name_defined_at_several_levels".into());
+    }
+    if target.is_none() && (0..=probe).rev().find(|&l| defs[l]).map(|l| l < probe).unwrap_or(false) {
+        tags.push("unqualified_found_in_an_ancestor".into());
+    }
+    if target.is_none() && defs[probe + 1..].iter().any(|d| *d) {
+        tags.push("name_also_defined_in_a_descendant".into());
+    }
+    tags.push(if members_first { "members_before_nested_module".into() } else { "members_after_nested_module".into() });
+    Chain { src, denotes, admissible, form: format!("{kind} `{reference}` from level {probe} ({})", if probe == 0 { "root".to_string() } else { MODS[1..=probe].join("::") }), tags }
+}
+fn run_chain(tier: Tier, k: u64) -> CaseOut {
+    let c = build_chain(k);
+    let must_reject = c.denotes.is_none() || !c.admissible;
+    let mut fails = vec![];
+    let mut outcome = String::new();
+    let backends: &[Backend] = if tier == Tier::Thorough || k % 16 == 0 { &[Backend::Vm, Backend::Wasm] } else { &[Backend::Vm] };
+    for &b in backends {
+        match full_run(b, &c.src, false, 2, &|_| vec![], false) {
+            Ok(fr) => {
+                outcome.push('A');
+                let got = fr.out.first().and_then(|o| o.first()).copied();
+                if !c.admissible && c.denotes.is_some() {
+                    fails.push(Fail { clause: format!("{}_private_member_referenced_from_outside", b.name()), detail: format!("{}: accepted, output {got:?}", c.form) });
+                } else if c.denotes.is_none() {
+                    fails.push(Fail { clause: format!("{}_reference_that_denotes_nothing_accepted", b.name()), detail: format!("{}: no definition of h at the level the reference denotes, yet accepted with output {got:?}", c.form) });
+                } else if got != c.denotes {
+                    fails.push(Fail { clause: format!("{}_reference_resolved_to_wrong_definition", b.name()), detail: format!("{}: output {got:?}, the reference denotes the definition returning {:?}", c.form, c.denotes) });
+                }
+            }
+            Err(RunErr::Compile(_)) => outcome.push('R'),
+            Err(RunErr::Crash(m)) => {
+                outcome.push('P');
+                fails.push(Fail { clause: format!("{}_crash_{}", b.name(), crash_label(&m)), detail: format!("{}: {m}", c.form) });
+            }
+        }
+    }
+    CaseOut {
+        key: fnv(c.src.as_bytes()),
+        nontrivial: true,
+        outcome: format!("{outcome}:{}", if must_reject { "must_reject" } else { "may_accept" }),
+        fails,
+        tags: c.tags,
+        repr: json!({"form": c.form, "denotes": c.denotes, "admissible_by_reference_rule": c.admissible, "source": c.src}),
+        counters: vec![(if must_reject { "must_reject".to_string() } else { "may_accept".to_string() }, 1), ("chain_cases".into(), 1), (if outcome.starts_with('A') && !must_reject { "chain_accepted_and_judged".to_string() } else { "chain_other".to_string() }, 1)],
+    }
+}
+
 impl Prop for C17 {
     fn id(&self) -> &'static str {
         "C17"
     }
     fn n_cases(&self, _tier: Tier) -> u64 {
-        8 * NFORMS
+        8 * NFORMS + n_chain()
     }
     fn chunk(&self, _t: Tier) -> u64 {
-        8
+        64
     }
     fn run_case(&self, tier: Tier, idx: u64) -> CaseOut {
+        if idx >= 8 * NFORMS {
+            return run_chain(tier, idx - 8 * NFORMS);
+        }
         let c = build(idx);
         let mut fails = vec![];
         let mut outcome = String::new();
@@ -130,6 +282,10 @@ impl Prop for C17 {
         }
     }
     fn describe_case(&self, _tier: Tier, idx: u64) -> (Value, Vec<String>) {
+        if idx >= 8 * NFORMS {
+            let c = build_chain(idx - 8 * NFORMS);
+            return (json!({"form": c.form, "source": c.src}), c.tags);
+        }
         let c = build(idx);
         (json!({"form": c.form, "source": c.src}), vec![format!("form:{}", c.form)])
     }
